@@ -312,6 +312,8 @@ def d3(cx: Cx, ob: Ob) -> None:
                         code = dict(t[3]).get("status_code") or (t[2][1] if len(t[2]) > 1 else None)
                         if code is None:
                             ob.violate(handler.qualname, where(handler, lineno), "the fastapi handler uses RedirectResponse's default status 307; Flask answers 302 for the same request", detail="redirect-status")
+                        elif op(code) == "ext" and code[1].rsplit(".", 1)[-1] in ("HTTP_302_FOUND", "FOUND"):
+                            pass  # starlette.status.HTTP_302_FOUND / http.HTTPStatus.FOUND
                         elif not is_const(code, 302):
                             ob.violate(handler.qualname, where(handler, lineno), f"the fastapi handler redirects with status {show(code)}, not 302", detail="redirect-status")
         if not fail:
